@@ -4,7 +4,7 @@
      - hashmap_clauses (directly driven AttributesHashMap): all clauses;
      - storage_clauses (reports of a storage over a history): the clauses series_le_limit, overflow_conserves_total,
        duplicate_series and collect_completes (strict = false); the two checks that look inside the individual series
-       (known_ok, exact_ok) are not proved of the model here. *)
+       (known_ok, exact_ok) are proved in ProofsSeries.v. *)
 From V Require Import C08.Glue C08.ProofsAttrs C08.ProofsTable C08.ProofsStorage.
 From Coq Require Import Lia ZifyBool ZifyNat Permutation Sorting.Sorted.
 Local Open Scope Z_scope.
